@@ -3,7 +3,12 @@
 // Accessor injected into package pmsg at build time by /verif (go build -overlay, tag verif).
 package pmsg
 
-import "github.com/filecoin-project/go-f3/gpbft"
+import (
+	"context"
+
+	"github.com/filecoin-project/go-f3/chainexchange"
+	"github.com/filecoin-project/go-f3/gpbft"
+)
 
 // VerifInferJustificationVoteValue exposes the production inference used when a partial message is
 // completed with its chain.
@@ -12,4 +17,10 @@ func VerifInferJustificationVoteValue(p *gpbft.PartialGMessage) { inferJustifica
 // VerifToPartial strips a message with the production code (the method does not use its receiver).
 func VerifToPartial(m *gpbft.GMessage) (*gpbft.PartialGMessage, error) {
 	return (*PartialMessageManager)(nil).ToPartialGMessage(m)
+}
+
+// VerifLearnChain makes the manager's chain exchange learn a chain the way an own broadcast does (the
+// production Broadcast: cached as wanted, then published).
+func (pmm *PartialMessageManager) VerifLearnChain(ctx context.Context, instance uint64, chain *gpbft.ECChain) error {
+	return pmm.chainex.Broadcast(ctx, chainexchange.Message{Instance: instance, Chain: chain, Timestamp: pmm.clk.Now().UnixMilli()})
 }
